@@ -37,14 +37,13 @@ def log(*a):
 
 def go_env():
     env = dict(os.environ)
-    env["GOFLAGS"] = "-mod=mod"
+    env["GOFLAGS"] = "-mod=readonly"  # never let a build rewrite /repo's go.mod / go.sum
     env["GOPROXY"] = "off"
     if env.get("GOTOOLCHAIN") == "local":
         env.pop("GOTOOLCHAIN")  # /usr/bin/go is 1.23; go.mod switches to the cached go1.26.5 toolchain
     env.pop("GOSUMDB", None)
     env["GONOSUMDB"] = "*"
     env["GONOSUMCHECK"] = "1"
-    env["GOFLAGS"] = "-mod=mod"
     return env
 
 
